@@ -80,6 +80,9 @@ fn trees(r: &mut Report) {
             for i in 0..24 { std::fs::write(d.join(format!("pkg/{}{}", ["a", "m", "z", "B", "_", "0"][i % 6], i)), format!("c{}", i)).unwrap(); }
             for i in 0..6 { std::fs::write(d.join(format!("pkg/sub/s{}", i)), format!("s{}", i)).unwrap(); }
             symlink("..", d.join("pkg/back")).unwrap(); symlink(".", d.join("pkg/here")).unwrap(); symlink("../..", d.join("pkg/sub/up2")).unwrap(); } },
+        // links whose own text is much shorter than the file they lead to (and the other way round)
+        T { id: "short-link-to-long-file", build: |d| { std::fs::write(d.join("out.txt"), vec![b'x'; 70_000]).unwrap(); symlink("out.txt", d.join("latest")).unwrap();
+            std::fs::create_dir_all(d.join("deep/er")).unwrap(); std::fs::write(d.join("deep/er/tiny"), "t").unwrap(); symlink("deep/er/../../deep/er/../er/tiny", d.join("long-link-to-tiny-file")).unwrap(); } },
         T { id: "symlink-to-symlink-to-file", build: |d| { std::fs::write(d.join("target"), "t").unwrap(); symlink(d.join("target"), d.join("l1")).unwrap(); symlink(d.join("l1"), d.join("l2")).unwrap(); } },
     ];
     for t in ts.iter() {
